@@ -77,6 +77,73 @@ GenFinalize(v, g, o) == Finalize(v, g.bk, g.ck, GenProcessedLen(g), o)
 GenFan(v, g)         == FinalizeFan(v, g.bk, g.ck, GenProcessedLen(g))
 
 -----------------------------------------------------------------------------
+(* Closed form for long periodic input (used to judge multi-MiB streams    *)
+(* and multi-GiB histories without stepping TLC through every byte).       *)
+(* The stream is pat repeated; `off` is the stream position (0-based) of   *)
+(* the first byte delivered by this call, k the number of bytes.           *)
+
+PeriodicData(pat, off, k) == [t \in 1..k |-> pat[((off + t - 1) % Len(pat)) + 1]]
+
+\* Preconditions of the closed form: a full tail holding the four stream
+\* bytes before `off`, a one-byte checksum, no saturation, k < 2^31.
+PeriodicPre(v, g, pat, off, k) ==
+    /\ g.tailLen = 4 /\ off >= 4 /\ v.ckLen = 1
+    /\ g.tail = PeriodicData(pat, off - 4, 4)
+    /\ WLe(WAddNat(g.len, k), MaxGenLen) /\ WLe(g.len, WAddNat(g.len, k))
+
+\* Number of t in 0..k-1 with (off + t) % p = r.
+ResidueCount(off, k, p, r) ==
+    LET first == (((r - off) % p) + p) % p IN
+    IF first >= k THEN 0 ELSE ((k - 1 - first) \div p) + 1
+
+BkAddN(v, bk, i, n) == IF i < v.nb THEN [bk EXCEPT ![i] = WAddNat(@, n)] ELSE bk
+
+\* Checksum after k more bytes, by cycle detection on <<checksum, residue>>
+\* (at most 256 * p distinct states).
+RECURSIVE CkIterate(_, _, _, _, _, _)
+CkIterate(v, ck, pat, pos, n, dummy) ==
+    IF n = 0 THEN ck
+    ELSE CkIterate(v, CkUpdate(v, ck, pat[(pos % Len(pat)) + 1], pat[((pos - 1) % Len(pat)) + 1]),
+                   pat, pos + 1, n - 1, dummy)
+RECURSIVE CkOrbit(_, _, _, _, _, _, _)
+CkOrbit(v, ck, pat, off, t, k, seen) ==
+    IF t = k THEN ck
+    ELSE LET key == <<ck[1], (off + t) % Len(pat)>> IN
+         IF key \in DOMAIN seen
+         THEN LET lambda == t - seen[key] IN
+              CkIterate(v, ck, pat, off + t, (k - t) % lambda, 0)
+         ELSE CkOrbit(v, CkUpdate(v, ck, pat[((off + t) % Len(pat)) + 1], pat[((off + t - 1) % Len(pat)) + 1]),
+                      pat, off, t + 1, k, seen @@ (key :> t))
+
+GenUpdatePeriodicClosed(v, g, pat, off, k) ==
+    LET p  == Len(pat)
+        win(r) == \* the window whose newest byte has residue r
+            WindowBuckets(v, pat[((r - 4 + 4 * p) % p) + 1], pat[((r - 3 + 4 * p) % p) + 1],
+                             pat[((r - 2 + 4 * p) % p) + 1], pat[((r - 1 + 4 * p) % p) + 1], pat[r + 1])
+        addRes(bk, r) ==
+            LET c == ResidueCount(off, k, p, r)
+                ix == win(r) IN
+            IF c = 0 THEN bk
+            ELSE BkAddN(v, BkAddN(v, BkAddN(v, BkAddN(v, BkAddN(v, BkAddN(v, bk, ix[1], c), ix[2], c),
+                                                      ix[3], c), ix[4], c), ix[5], c), ix[6], c)
+        bk2 == FoldLeft(addRes, g.bk, [r \in 1..p |-> r - 1])
+        newTail == IF k >= 4 THEN PeriodicData(pat, off + k - 4, 4)
+                   ELSE SubSeq(g.tail, k + 1, 4) \o PeriodicData(pat, off, k)
+    IN  [g EXCEPT !.bk = bk2,
+                  !.ck = CkOrbit(v, g.ck, pat, off, 0, k, <<>>),
+                  !.len = WAddNat(g.len, k),
+                  !.tail = newTail]
+
+\* k periodic bytes from any state: short deliveries and the first bytes of
+\* a long one are stepped explicitly, the bulk goes through the closed form.
+GenUpdatePeriodic(v, g, pat, off, k) ==
+    IF k <= 16 \/ v.ckLen # 1 THEN GenUpdate(v, g, PeriodicData(pat, off, k))
+    ELSE LET g1 == GenUpdate(v, g, PeriodicData(pat, off, 8)) IN
+         IF PeriodicPre(v, g1, pat, off + 8, k - 8)
+         THEN GenUpdatePeriodicClosed(v, g1, pat, off + 8, k - 8)
+         ELSE GenUpdate(v, g, PeriodicData(pat, off, k))
+
+-----------------------------------------------------------------------------
 (* The abstraction: the concrete state the reference assigns to the bytes  *)
 (* fed so far.  Only the first 2^W bytes... precisely: the first           *)
 (* (2^W - 4) + 4 bytes are ever counted.  `data` is an explicit sequence   *)
